@@ -12,6 +12,7 @@ import (
 	"fmt"
 	"math"
 	"math/bits"
+	"os"
 	"runtime"
 	"sync"
 	"unsafe"
@@ -86,6 +87,12 @@ func detKind[T comparable](c DetCase, o *vk.Obs, es *elems[T]) string {
 		return bad
 	}
 	reps := min(max(c.Reps, 1), maxReps)
+	if os.Getenv("VK_REPLAY") != "" && len(c.Ops) <= 4000 {
+		// The counter draws its coins from a source the harness cannot seed: a
+		// replay tries many more fresh counters, so that a failure that needs
+		// particular coin flips shows up again (a correct tree passes them all).
+		reps = max(reps, 64) * 64
+	}
 	for r := 0; r < reps; r++ {
 		ob := o
 		if r > 0 {
